@@ -179,12 +179,50 @@ func (w *World) verifyLemma(lm *SpecLemma) *Gen {
 		}
 		return and(rs...), and(es...)
 	}
+	// lemmas used inside the proof: instantiated (requires ==> ensures) with n := the given term
+	useAt := func(nTerm string) {
+		vars := map[string]Val{}
+		for k, v := range base {
+			vars[k] = v
+		}
+		nv := base[lm.Induct]
+		nv.T = nTerm
+		vars[lm.Induct] = nv
+		st := State{}
+		le := &Env{g: g, vars: vars, st: st, old: st, pkg: ""}
+		for _, u := range lm.Uses {
+			ul, ok := w.lemmas[u.Lemma]
+			if !ok || len(ul.Params) != len(u.Args) {
+				panic(specErr("use of unknown lemma / wrong arity: " + u.Lemma))
+			}
+			uv := map[string]Val{}
+			for i, p := range ul.Params {
+				uv[p.Name] = le.tr(u.Args[i])
+			}
+			ue := &Env{g: g, vars: uv, st: st, old: st, pkg: ""}
+			var rs, es []string
+			for _, r := range ul.Requires {
+				rs = append(rs, ue.tr(r).T)
+			}
+			for _, e := range ul.Ensures {
+				es = append(es, ue.tr(e).T)
+			}
+			g.fact(implies(and(rs...), and(es...)))
+			if ul.Assumed {
+				g.usedAssumed["lemma "+ul.Name] = true
+			}
+			g.usedLemmas[ul.Name] = true
+		}
+	}
+	useAt("0")
 	r0, e0 := stmt("0")
 	g.oblige("lemma", key+"/base", "true", implies(r0, e0), lm.Src, where, nil)
 	k := g.fresh("lk", "Int")
 	g.fact("(>= " + k + " 0)")
 	rk, ek := stmt(k)
 	g.fact(implies(rk, ek))
+	useAt(k)
+	useAt("(+ " + k + " 1)")
 	r1, e1 := stmt("(+ " + k + " 1)")
 	g.oblige("lemma", key+"/step", "true", implies(r1, e1), lm.Src, where, nil)
 	return g
